@@ -59,14 +59,15 @@ Fixpoint trun (by_copy is_runnable : bool) (s : tstate) (ls : list tlabel) : tst
   end.
 
 (* ---- runner for the correspondence check ------------------------------------------------------
-   The controlled scheduler cannot stop the starter inside start() (the source has no
-   synchronisation point there), so a starter step from "before start" is SEnter; SReturn. *)
+   The controlled scheduler stops the starter inside start() right after the std::thread was
+   created (its constructor is a scheduling point), so the four starter steps are separate labels. *)
 Local Open Scope Z_scope.
 
 Definition labels_of_harness (s : tstate) (l : list Z) : option (list tlabel) :=
   match l with
   | [0] => Some (match spc s with
-                 | O => [SEnter; SReturn]
+                 | O => [SEnter]
+                 | 1%nat => [SReturn]
                  | 2%nat => [SClobber]
                  | _ => [SJoin]
                  end)
